@@ -17,6 +17,7 @@ import (
 	"simworld/k"
 	"simworld/plugins"
 	"simworld/shim/simnet"
+	"simworld/shim/simos"
 
 	"github.com/hashicorp/yamux"
 	"google.golang.org/grpc"
@@ -62,6 +63,14 @@ func init() {
 						cells = append(cells, cp(conf, "path", "mux-brokered", "cred", "observer", "when", "after", "launch", l))
 					}
 				}
+				// the host's certificate reaches the plugin damaged (a launcher that
+				// cuts the value at its first line break, a flipped byte, ...): the
+				// plugin may refuse everybody, it must not fall back to serving anybody
+				for _, dmg := range []string{"firstline", "half", "flip", "garbage", "blank"} {
+					for _, cred := range []string{"plaintext", "tls-nocert", "tls-selfsigned"} {
+						cells = append(cells, cp(conf, "path", "main", "cred", cred, "when", "after", "certdamage", dmg))
+					}
+				}
 				cells = append(cells, cp(conf, "impostor", "1"))
 				cells = append(cells, cp(conf, "impostor", "nocert"))
 				cells = append(cells, cp(conf, "impostor", "shortcert"))
@@ -73,7 +82,7 @@ func init() {
 			}
 			var out []*k.Spec
 			for _, c := range cells {
-				out = append(out, sp("C12", fmt.Sprintf("cell/%s/%s/%s/%s/imp%s", confLabel(c), c["path"], c["cred"], c["when"], c["impostor"]), seed, c))
+				out = append(out, sp("C12", fmt.Sprintf("cell/%s/%s/%s/%s/imp%s%s", confLabel(c), c["path"], c["cred"], c["when"], c["impostor"], c["certdamage"]), seed, c))
 			}
 			n := 300
 			if tier == "thorough" {
@@ -230,6 +239,30 @@ func runC12(r *h.Run) {
 			return time.Duration(w.Range(key, 5)) * 300 * time.Microsecond
 		}
 		return 0
+	}
+	if dmg := r.Spec.P("certdamage", ""); dmg != "" {
+		ctx += " host-certificate-damaged-on-the-way=" + dmg
+		c.PluginMain = func(serve func()) {
+			v := simos.Getenv("PLUGIN_CLIENT_CERT")
+			switch dmg {
+			case "firstline":
+				v, _, _ = strings.Cut(v, "\n")
+			case "half":
+				v = v[:len(v)/2]
+			case "flip":
+				b := []byte(v)
+				if len(b) > 120 {
+					b[120] ^= 0x11
+				}
+				v = string(b)
+			case "garbage":
+				v = "not a certificate"
+			case "blank":
+				v = " "
+			}
+			simos.Setenv("PLUGIN_CLIENT_CERT", v)
+			serve()
+		}
 	}
 	wire := r.WatchWire(ctx, c.Mux)
 	r.InstallPlugin(&c)
@@ -411,7 +444,7 @@ func runC12(r *h.Run) {
 			r.Violate("intruder-served", ctx+" counter", fmt.Sprintf("the plugin served %d requests, the legitimate host made %d successful calls", served, legit))
 		}
 	}
-	if cmd != nil && legit == 0 && when == "after" {
+	if cmd != nil && legit == 0 && when == "after" && r.Spec.P("certdamage", "") == "" {
 		r.Violate("legit-host-broken", ctx, "the legitimate host connected but none of its calls succeeded")
 	}
 	r.DoNoHang("Kill", 150*time.Second, ctx, func() (any, error) { cl.Kill(); return nil, nil })
